@@ -327,7 +327,9 @@ class CallMixin:
             run.event(eff[0], via=fi.key, lineno=ln, args=list(args), heap=self.heap.snapshot(), index=len(run.events))
         # frame + havoc
         if c.modifies is not None:
-            for field, refs in c.modifies(sc):
+            mods_ = list(c.modifies(sc))
+            mods_ += [('$lpos', refs) for field, refs in mods_ if field == '$litem']      # ghost bookkeeping goes with the items
+            for field, refs in mods_:
                 hv = run.fresh('cm_' + field.replace('$', 'S'), sym.heap_sort(field))
                 if refs == 'all':
                     self.heap.a[field] = hv
@@ -717,7 +719,10 @@ class CallMixin:
         if name in ('list.append',):
             r = sym.r_of(self.sv(a[0], n).t)
             l = h.l(r)
-            h.put_l(r, ListT(sym.simp(l.len + 1), z3.Store(l.item, l.len, self.store_val(a[1], n))))
+            tv = self.store_val(a[1], n)
+            # ghost: the position at which a value was (last) appended - lets an invariant say "k is in the list" without an existential
+            self.heap.put('$lpos', r, z3.Store(self.heap.get('$lpos', r), tv, l.len))
+            h.put_l(r, ListT(sym.simp(l.len + 1), z3.Store(l.item, l.len, tv)))
             return NONE
         if name == 'list.__init__':
             r = sym.r_of(self.sv(a[0], n).t)
